@@ -138,6 +138,7 @@ type State struct {
 	events  []string
 	collect *[]candCheck // houdini: collected candidate checks at back edges
 	steps   int
+	onceDepth int
 	hashEmpty map[string]bool // hashers known to be in their initial (empty) state on this path
 	stop    *stopCtx
 	init    map[string]string // first symbol of every heap (its value at unit entry)
@@ -282,7 +283,7 @@ func (st *State) setHeap(name, sort, term string) {
 
 func (st *State) havocHeap(name string) {
 	sort, ok := st.hsort[name]
-	if !ok {
+	if !ok || sort == "" {
 		return
 	}
 	st.heap(name, sort)
